@@ -6337,6 +6337,16 @@ mz_bool mz_zip_writer_add_mem_ex_v2(mz_zip_archive * pZip, const char * pArchive
 
 	MZ_CLEAR_OBJ(local_dir_header);
 
+	if (!(level_and_flags & MZ_ZIP_FLAG_COMPRESSED_DATA)) {
+		uncomp_crc32 = (mz_uint32)mz_crc32(MZ_CRC32_INIT, (const mz_uint8 *)pBuf, buf_size);
+		uncomp_size = buf_size;
+
+		if (uncomp_size <= 3) {
+			level = 0;
+			store_data_uncompressed = MZ_TRUE;
+		}
+	}
+
 	if (!store_data_uncompressed || (level_and_flags & MZ_ZIP_FLAG_COMPRESSED_DATA)) {
 		method = MZ_DEFLATED;
 	}
@@ -6401,16 +6411,6 @@ mz_bool mz_zip_writer_add_mem_ex_v2(mz_zip_archive * pZip, const char * pArchive
 		}
 
 		cur_archive_file_ofs += user_extra_data_len;
-	}
-
-	if (!(level_and_flags & MZ_ZIP_FLAG_COMPRESSED_DATA)) {
-		uncomp_crc32 = (mz_uint32)mz_crc32(MZ_CRC32_INIT, (const mz_uint8 *)pBuf, buf_size);
-		uncomp_size = buf_size;
-
-		if (uncomp_size <= 3) {
-			level = 0;
-			store_data_uncompressed = MZ_TRUE;
-		}
 	}
 
 	if (store_data_uncompressed) {
